@@ -203,12 +203,51 @@ Eval vm_compute in (length res, length (filter (fun r => negb (fst r)) res), len
             if md < bmin_ - 1e-9 or (m == "NEARSQUARE" and abs(md - bmin_) > 1e-9):
                 chk.violation("design-land", r["cfg"], {"boreholes": r["nbh"], "smallest_distance": md},
                               f"boreholes of the returned field at least b_min = {bmin_} apart (near-square: exactly b)")
+    # ---- the candidate domains the design classes build from the user's land (set_geometry_constraints_* + set_design): every field of every
+    #      list inside the land and at least b_min apart; side / spacing ratios that are not whole numbers
+    dl = [("NEARSQUARE", {"length": 33.0, "b": 5.0}), ("NEARSQUARE", {"length": 37.7, "b": 5.8}), ("RECTANGLE", {"length": 46.3, "width": 27.4, "b_min": 3.7, "b_max": 9.1}),
+          ("BIRECTANGLE", {"length": 27.4, "width": 46.3, "b_min": 3.7, "b_max_x": 9.1, "b_max_y": 11.2}),
+          # the same lot turned by 90 degrees, in the same process
+          ("BIRECTANGLE", {"length": 46.3, "width": 27.4, "b_min": 3.7, "b_max_x": 11.2, "b_max_y": 9.1}), ("BIZONEDRECTANGLE", {"length": 41.5, "width": 28.2, "b_min": 4.3, "b_max_x": 9.7, "b_max_y": 10.4})]
+    if not quick:
+        dl += [("NEARSQUARE", {"length": 61.5, "b": 6.15}), ("RECTANGLE", {"length": 27.4, "width": 46.3, "b_min": 3.7, "b_max": 9.1}), ("BIZONEDRECTANGLE", {"length": 28.2, "width": 41.5, "b_min": 4.3, "b_max_x": 9.7, "b_max_y": 10.4})]
+    dr = run_impl("design_stub.py", {"cases": [{"cfg": cfg(m, months=12, geom_over=go), "thresholds": [], "want_extents": True} for m, go in dl]}, timeout=900)
+    if isinstance(dr, dict) and "_error" in dr:
+        chk.broken.append({"name": "design-domain harness failed", "detail": dr["_error"][-300:]})
+    else:
+        for (m, go), o in zip(dl, dr):
+            if not o.get("ok"):
+                chk.broken.append({"name": "design-domain harness failed", "detail": json.dumps(o)[-300:]})
+                continue
+            L = go["length"]
+            W_ = go.get("width", L)
+            bmin_ = go.get("b_min", go.get("b"))
+            exts = o["extents"] if isinstance(o["extents"][0][0], (int, float)) else [e for l in o["extents"] for e in l]
+            chk.cov["evaluations"] += len(exts)
+            for e in exts:
+                x0, y0, x1, y1, md, n = e
+                if m == "NEARSQUARE":
+                    # n x n or n x (n+1) grids at exactly spacing b with (n-1) b <= length (the longer side of an n x (n+1) grid may pass the side)
+                    if (x0 < -1e-9 or y0 < -1e-9 or x1 > L + 1e-9 or y1 > x1 + bmin_ + 1e-9 or (md is not None and abs(md - bmin_) > 1e-9)) and len(chk.violations) < 5:
+                        chk.violation("design-domain", {"method": m, "geometric_constraints": go}, {"boreholes": n, "x_range": [x0, x1], "y_range": [y0, y1], "smallest_distance": md},
+                                      f"near-square candidates are n x n or n x (n+1) grids at exactly spacing b = {bmin_} with (n-1) b <= length = {L}")
+                        break
+                    continue
+                if (x0 < -1e-9 or y0 < -1e-9 or x1 > L + 1e-9 or y1 > W_ + 1e-9) and len(chk.violations) < 5:
+                    chk.violation("design-domain", {"method": m, "geometric_constraints": go}, {"boreholes": n, "x_range": [x0, x1], "y_range": [y0, y1]},
+                                  f"every candidate field the design class builds lies on the land: 0 <= x <= {L}, 0 <= y <= {W_}")
+                    break
+                if md is not None and md < bmin_ - 1e-9 and len(chk.violations) < 5:
+                    chk.violation("design-domain", {"method": m, "geometric_constraints": go}, {"boreholes": n, "smallest_distance": md}, f"boreholes of every candidate field at least {bmin_} apart")
+                    break
     return chk.finish(assumptions=["float stream compared with 1e-9 m tolerance; theorems are about exact rationals"])
 
 
 def replay(payload):
     from lib import Check
     chk = Check("C03", "quick", payload.get("seed", 0))
+    if payload.get("kind") in ("design-domain", "design-land"):
+        return "RERUN"
     c = payload["input"]
     r = run_impl("domains_drv.py", {"cases": [c]})
     oracle(chk, c, r[0])
